@@ -34,6 +34,8 @@ pub(crate) struct RepSocket {
   ingress_engine: AddressedIngressEngine,
   pending_pipe_senders: ParkingLotMutex<HashMap<usize, PipeMessageSender>>,
   state: ParkingLotMutex<RepState>,
+  /// Serialises `recv()` calls: the state check, the awaited request and the state update form one turn.
+  recv_turn: tokio::sync::Mutex<()>,
   pipe_read_id_to_endpoint_uri: RwLock<HashMap<usize, String>>,
 }
 
@@ -45,6 +47,7 @@ impl RepSocket {
       ingress_engine: AddressedIngressEngine::new(max_conn),
       pending_pipe_senders: ParkingLotMutex::new(HashMap::new()),
       state: ParkingLotMutex::new(RepState::ReadyToReceive),
+      recv_turn: tokio::sync::Mutex::new(()),
       pipe_read_id_to_endpoint_uri: RwLock::new(HashMap::new()),
     }
   }
@@ -143,6 +146,8 @@ impl ISocket for RepSocket {
     if !self.core.is_running() {
       return Err(ZmqError::InvalidState("Socket is closing".into()));
     }
+    // A racing recv() waits here until the one in flight has stored its requester (or was dropped).
+    let _turn = self.recv_turn.lock().await;
     {
       let guard = self.state.lock();
       if !matches!(*guard, RepState::ReadyToReceive) {
@@ -235,6 +240,8 @@ impl ISocket for RepSocket {
     if !self.core.is_running() {
       return Err(ZmqError::InvalidState("Socket is closing".into()));
     }
+    // A racing recv() waits here until the one in flight has stored its requester (or was dropped).
+    let _turn = self.recv_turn.lock().await;
     {
       let guard = self.state.lock();
       if !matches!(*guard, RepState::ReadyToReceive) {
